@@ -146,7 +146,7 @@ PROPS = {
     "C06": {"level": "model_checking", "models": ["MC_Farm", "MC_FarmLife"], "families": ["farm", "fault"], "proofs": ["proofs/FarmLemmas.tla"]},
     "C07": {"level": "model_checking", "models": ["MC_Farm"], "families": ["farm", "fault"], "proofs": ["proofs/FarmLemmas.tla"]},
     "C08": {"level": "model_checking", "models": ["MC_FarmLife"], "families": ["farm", "pool"]},
-    "C09": {"level": "model_checking", "models": ["MC_FarmLife", "MC_Math"], "families": ["farm"], "proofs": ["proofs/FarmLemmas.tla"]},
+    "C09": {"level": "model_checking", "models": ["MC_FarmLife", "MC_Math"], "families": ["farm", "fault"], "proofs": ["proofs/FarmLemmas.tla"]},
     "C10": {"level": "model_checking", "models": ["MC_Farm"], "families": ["farm", "pool"]},
     "C11": {"level": "model_checking", "models": ["MC_FarmLife"], "families": ["farm"]},
     "C18": {"level": "model_checking", "models": ["MC_Epoch"], "families": ["epoch"], "proofs": ["proofs/EpochLemmas.tla"]},
